@@ -22,6 +22,10 @@ def _min_image_clash(X, existing, cell, dmin):
     return False
 
 
+PREFIX_TWINS = {"C": ["Cl", "Cu", "Co", "Ca"], "N": ["Ni", "Na", "Nb"], "O": ["Os"], "H": ["He", "Hf", "Hg"], "F": ["Fe"],
+                "S": ["Si", "Sn", "Se", "Sr"], "B": ["Br", "Ba", "Be"], "P": ["Pt", "Pd", "Pb"]}
+
+
 def pick_hints(rng, P, prob=0.4):
     n = len(P)
     if n < 2 or rng.random() > prob:
@@ -75,7 +79,7 @@ def default_scripts(rng, antiparallel=False):
 
 def gen_find_world(rng, max_atoms=48, max_copies=6, families=None, cell_families=None, allow_rotated=False,
                    hints_prob=0.4, decoys=True, min_copies=0, atols=None, noise=True, pattern=None, width_mult=1.0,
-                   no_tight=False, noise_div_K=False, round_cell=None, force_axis_exact=False, poses=None):
+                   no_tight=False, noise_div_K=False, round_cell=None, force_axis_exact=False, poses=None, moderate_noise=False):
     """A periodic structure with planted copies of a pattern (+ decoys).  Returns a JSON-able spec."""
     family = rng.choice(families or geom.PATTERN_FAMILIES)
     if pattern is None:
@@ -141,7 +145,7 @@ def gen_find_world(rng, max_atoms=48, max_copies=6, families=None, cell_families
     want_antiparallel = n >= 2 and (axis_exact or rng.random() < 0.25)
     a1, a2, op = geom.effective_hints(P, hints) if n >= 2 else (0, 0, None)
 
-    def place(X, kind, pose, bclass, eps):
+    def place(X, kind, pose, bclass, eps, elems=None):
         nonlocal atoms_pos, atoms_el
         if len(atoms_pos) + len(X) > max_atoms:
             return False
@@ -149,7 +153,7 @@ def gen_find_world(rng, max_atoms=48, max_copies=6, families=None, cell_families
             return False
         base = len(atoms_pos)
         atoms_pos += [list(x) for x in X]
-        atoms_el += list(els[:len(X)]) if kind != "distractor" else [rng.choice(els) for _ in X]
+        atoms_el += list(elems) if elems is not None else (list(els[:len(X)]) if kind != "distractor" else [rng.choice(els) for _ in X])
         planted.append({"kind": kind, "indices": list(range(base, base + len(X))), "pose": pose, "boundary": bclass,
                         "eps": eps})
         return True
@@ -169,6 +173,14 @@ def gen_find_world(rng, max_atoms=48, max_copies=6, families=None, cell_families
             if np.linalg.norm(perp) < 1e-6:
                 perp = np.cross(ax, [1.0, 0.3, 0.2])
             return geom.rotation_about(perp, math.pi)
+        if pose == "reach_aligned":
+            # the direction from the first pattern atom to the atom farthest from it exactly along a coordinate axis (the tightest
+            # case for any bounding-box prefilter around a starting atom), any turn about that axis
+            j = int(np.argmax(np.linalg.norm(P - P[0], axis=1)))
+            d = P[j] - P[0]
+            e = np.zeros(3)
+            e[rng.randrange(3)] = rng.choice([1.0, -1.0])
+            return geom.rotation_about(e, rng.uniform(0, 2 * math.pi)) @ geom._rot_u_to_v(d / np.linalg.norm(d), e)
         if pose == "near_aligned":
             # a small but non-zero rotation away from identity / an axis-aligned pose (1e-4 .. 0.2 rad)
             base = np.eye(3) if rng.random() < 0.6 else geom.CUBE_ROTS[rng.randrange(24)]
@@ -227,7 +239,7 @@ def gen_find_world(rng, max_atoms=48, max_copies=6, families=None, cell_families
                     break
             continue
         for attempt in range(12):
-            pose = "antiparallel" if (want_antiparallel and c == 0) else rng.choice(poses or ["random", "random", "random", "aligned", "near_aligned"])
+            pose = "antiparallel" if (want_antiparallel and c == 0) else rng.choice(poses or (["random", "random", "random", "aligned", "near_aligned"] + (["reach_aligned", "reach_aligned"] if moderate_noise and n >= 2 else [])))
             R = random_pose(pose)
             X = P @ R.T
             eps = 0.0
@@ -240,6 +252,20 @@ def gen_find_world(rng, max_atoms=48, max_copies=6, families=None, cell_families
                     N[a1] = 0.0
                     N[a2] = 0.0
                 X = X + N
+            elif moderate_noise and n >= 2 and pose != "antiparallel" and rng.random() < 0.5:
+                # noise of a sizeable fraction of the tolerance (NOT covered by the a-priori amplification bound: such a copy counts
+                # as a must-find only if the all-anchor certificate of the oracle says so)
+                eps = atol * rng.choice([0.15, 0.25, 0.35, 0.4])
+                if rng.random() < 0.5:
+                    eps = atol * rng.choice([0.15, 0.3, 0.4, 0.55, 0.65, 0.75])
+                    # one atom pushed straight away from (or towards) the first pattern atom
+                    j = int(np.argmax(np.linalg.norm(X - X[0], axis=1)))
+                    d = X[j] - X[0]
+                    X = X.copy()
+                    X[j] = X[j] + d / np.linalg.norm(d) * eps * rng.choice([1.0, 1.0, -1.0])
+                else:
+                    N = np.array([[rng.gauss(0, 1) for _ in range(3)] for _ in range(n)])
+                    X = X + N / np.maximum(np.linalg.norm(N, axis=1, keepdims=True), 1e-12) * eps * np.array([[rng.random()] for _ in range(n)])
             bclass = rng.choice([0, 0, 1, 1, 2, 3])
             X = X + random_translation(X, bclass)
             if place(X, "copy", pose, bclass, eps):
@@ -249,7 +275,17 @@ def gen_find_world(rng, max_atoms=48, max_copies=6, families=None, cell_families
         ndec = rng.randint(0, 4)
         big_oop = n >= 13 and geom.plane_normal(P, 3.0 * atol) is not None
         for dnum in range(ndec + (1 if big_oop else 0)):
-            kind = rng.choice(["mirror", "nearmiss", "gray", "partial", "distractor", "distractor", "outofplane", "outofplane"])
+            kind = rng.choice(["mirror", "nearmiss", "gray", "partial", "distractor", "distractor", "outofplane", "outofplane", "prefix_twin"])
+            twin_els = None
+            if kind == "prefix_twin":
+                # an exact copy in which one element is replaced by an element whose symbol merely STARTS with it (C -> Cl, N -> Ni...)
+                cands = sorted(set(e for e in els if e in PREFIX_TWINS))
+                if not cands:
+                    kind = "mirror"
+                else:
+                    e0 = rng.choice(cands)
+                    tw = rng.choice(PREFIX_TWINS[e0])
+                    twin_els = [tw if e == e0 else e for e in els]
             nrm_pat = geom.plane_normal(P, 3.0 * atol) if kind == "outofplane" else None
             if kind == "outofplane" and nrm_pat is None:
                 kind = "mirror"
@@ -278,6 +314,8 @@ def gen_find_world(rng, max_atoms=48, max_copies=6, families=None, cell_families
                         amp = rng.uniform(3.6, max(3.7, 0.97 * math.sqrt(n)))
                     X[rng.randrange(n)] += nrm_pat * atol * rng.choice([-1, 1]) * amp
                     X = X @ R.T
+                elif kind == "prefix_twin":
+                    X = P @ R.T
                 elif kind == "partial":
                     if n < 2:
                         break
@@ -285,7 +323,7 @@ def gen_find_world(rng, max_atoms=48, max_copies=6, families=None, cell_families
                 else:
                     X = np.array([[0.0, 0.0, 0.0]])
                 X = X + random_translation(X, rng.choice([0, 1, 2, 3]))
-                if place(X, kind, "random", 0, None):
+                if place(X, kind, "random", 0, None, elems=twin_els if kind == "prefix_twin" else None):
                     break
 
     # shuffle atom order
